@@ -46,6 +46,8 @@ import (
 // If autoBool is enabled (default if Config or ConfigVar is used), keys without
 // value are converted to bool variable with value being true.
 func NewFlagKeyValue(cfg *ucfg.Config, autoBool bool, opts ...ucfg.Option) *FlagValue {
+	// keep a copy: the caller may reuse its slice after creating the flag
+	opts = append([]ucfg.Option(nil), opts...)
 	return newFlagValue(cfg, opts, func(arg string) (*ucfg.Config, error, error) {
 		var key string
 		var val interface{}
